@@ -137,6 +137,14 @@ fn main() {
                 };
                 for (i, t) in pgverif::engine::sample_n(&pgverif::gen::trace::text_trace(&pool, 10), seed, 40).into_iter().enumerate() {
                     let mut data = if args[2] == "C07" { vec![(i % 3) as u8 | if i % 5 == 0 { 0x40 } else { 0 }] } else { Vec::new() };
+                    if args[2] == "C17" && i % 2 == 0 {
+                        // structured seed: class 0 message 0 (class 0 method 0 file 0 line 0)* [1 next level]
+                        data.extend_from_slice(b"java.lang.RuntimeException\0boom: x\0a.B\0run\0Foo.kt\07\0c\0<init>\0SourceFile\012\0\x01zz.Cause\0\0a\0x\0F.java\03\0");
+                        data.extend_from_slice(&[i as u8]);
+                        let _ = std::fs::write(dir.join(format!("gen-{n:03}")), data);
+                        n += 1;
+                        continue;
+                    }
                     data.extend_from_slice(t.render().as_bytes());
                     let _ = std::fs::write(dir.join(format!("gen-{n:03}")), data);
                     n += 1;
